@@ -336,6 +336,16 @@ def enc_option(body):
     return enc_elem(len(body) // 8) + body
 
 
+def enc_bytes(b):
+    """A byte vector: its length in bytes, the bytes, zero padding up to a multiple of 8."""
+    return enc_elem(len(b)) + bytes(b) + bytes((-len(b)) % 8)
+
+
+def enc_string(text):
+    """A string: its UTF-8 bytes as a byte vector."""
+    return enc_bytes(text.encode("utf-8"))
+
+
 def enc_raw(n, big):
     words = (n + 63) // 64
     out = enc_elem(n) + enc_elem(words)
